@@ -2,6 +2,8 @@
 
 package twig
 
+import "reflect"
+
 // Verification hooks (build tag "verif"). Nothing in this file is compiled into
 // a normal build; it only lets a test harness run the attribute cache at a small
 // capacity and look at its size.
@@ -38,5 +40,20 @@ func VerifSetHook(h func(point string)) { verifHook = h }
 func vhook(point string) {
 	if h := verifHook; h != nil {
 		h(point)
+	}
+}
+
+// verifPoolHook, when set, observes the traffic of the render-context pools:
+// "get" (obj was taken from its pool; n = entries it came with), "ready" (a
+// context is handed to its user; n = entries of its variable map that the user
+// did not ask for), "put" (obj is about to be given back; n = entries still in it).
+var verifPoolHook func(ev, pool string, id uintptr, n int)
+
+// VerifSetPoolHook installs (or, with nil, removes) the pool hook.
+func VerifSetPoolHook(h func(ev, pool string, id uintptr, n int)) { verifPoolHook = h }
+
+func vpool(ev, pool string, obj interface{}, n int) {
+	if h := verifPoolHook; h != nil {
+		h(ev, pool, reflect.ValueOf(obj).Pointer(), n)
 	}
 }
